@@ -936,6 +936,73 @@ Proof.
   eexists. split; [vm_compute; reflexivity|]. split; vm_compute; repeat split.
 Qed.
 
+(* ---------- href; eight setters ---------- *)
+
+(* href: the parser without a base.  Outside classes 11-14 of Known_C07 (the value is in Known_C01) the href setter
+   is the Standard's on every corrS-related pair: both parsers fail (URL unchanged on both sides), or both succeed
+   with corrS-related records - EXCEPT the one arm of C01 that is no agreement: a new URL whose serialization is
+   longer than u32::MAX bytes (the code answers ParseError::Overflow and keeps the old URL, the Standard sets the
+   new one); href_fits excludes it (a value of more than 4 GiB). *)
+Theorem C07_href_equiv : forall dbg hp ho hd shp shs, host_parse_ok hp ho hd shp shs ->
+  forall u su v, corrS dbg shs u su -> usv_list v -> known_c07 u QHref v = 0 -> href_fits shp shs v ->
+  exists u' su', model_set dbg hp ho hd QHref u v = Some u' /\ spec_step shp QHref su v = Some su'
+    /\ corrS dbg shs u' su'.
+Proof. exact href_step. Qed.
+Check C07_href_equiv : forall dbg hp ho hd shp shs, host_parse_ok hp ho hd shp shs ->
+  forall u su v, corrS dbg shs u su -> usv_list v -> known_c07 u QHref v = 0 ->
+  match spec_basic_url_parse shp v None with
+  | BDone su' => nlen (get_href shs su') <= U32_MAX_P
+  | _ => True
+  end ->
+  exists u' su', model_set dbg hp ho hd QHref u v = Some u' /\ spec_step shp QHref su v = Some su'
+    /\ corrS dbg shs u' su'.
+Print Assumptions C07_href_equiv.
+
+(* PARTIAL C07_statement: one assignment through any of EIGHT setters (the seven and href) preserves corrS ... *)
+Theorem C07_eight_setters_partial : forall dbg hp ho hd shp shs, host_parse_ok hp ho hd shp shs ->
+  forall u su s v, corrS dbg shs u su -> (seven s = true \/ (s = QHref /\ href_fits shp shs v)) -> usv_list v ->
+  known_c07 u s v = 0 ->
+  exists u' su', model_set dbg hp ho hd s u v = Some u' /\ spec_step shp s su v = Some su' /\ corrS dbg shs u' su'.
+Proof. exact eight_step. Qed.
+Check C07_eight_setters_partial : forall dbg hp ho hd shp shs, host_parse_ok hp ho hd shp shs ->
+  forall u su s v, corrS dbg shs u su -> (seven s = true \/ (s = QHref /\ href_fits shp shs v)) -> usv_list v ->
+  known_c07 u s v = 0 ->
+  exists u' su', model_set dbg hp ho hd s u v = Some u' /\ spec_step shp s su v = Some su' /\ corrS dbg shs u' su'.
+Print Assumptions C07_eight_setters_partial.
+
+(* ... and so does every history of them: the ten API strings agree after every prefix *)
+Theorem C07_eight_histories : forall dbg hp ho hd shp shs, host_parse_ok hp ho hd shp shs ->
+  forall ops u su, corrS dbg shs u su -> eight_ops shp shs ops -> outside_known dbg hp ho hd u ops ->
+  forall n, exists u' su',
+    model_run dbg hp ho hd u (firstn n ops) = Some u'
+    /\ spec_run shp su (firstn n ops) = Some su'
+    /\ corrS dbg shs u' su'
+    /\ model_api dbg u' = Some (spec_api_list shs su').
+Proof. exact eight_histories. Qed.
+Check C07_eight_histories : forall dbg hp ho hd shp shs, host_parse_ok hp ho hd shp shs ->
+  forall ops u su, corrS dbg shs u su -> eight_ops shp shs ops -> outside_known dbg hp ho hd u ops ->
+  forall n, exists u' su',
+    model_run dbg hp ho hd u (firstn n ops) = Some u'
+    /\ spec_run shp su (firstn n ops) = Some su'
+    /\ corrS dbg shs u' su'
+    /\ model_api dbg u' = Some (spec_api_list shs su').
+Print Assumptions C07_eight_histories.
+
+(* the hypotheses can be met: on "a://h/p", href := " hTTps:\\u:p@H.x:0443/a/../b?q#f" (fits), then hostname := "y.z" *)
+Example C07_eight_inhabited :
+  let ops := [(QHref, str " hTTps:\\u:p@H.x:0443/a/../b?q#f"); (QHostname, str "y.z")] in
+  eight_ops ok_shp toy_shs ops
+  /\ exists u, parse_url true ok_hp ok_ho toy_hd None None (str "a://h/p") = POk u
+       /\ outside_known true ok_hp ok_ho toy_hd u ops
+       /\ option_map q_href (model_run true ok_hp ok_ho toy_hd u ops) = Some (str "https://u:p@y.z/b?q#f").
+Proof.
+  cbv zeta. split.
+  - cbn [eight_ops]. split; [right; split; [reflexivity|]; unfold href_fits; vm_compute; discriminate|].
+    split; [repeat constructor; vm_compute; auto|]. split; [left; reflexivity|].
+    split; [repeat constructor; vm_compute; auto | exact I].
+  - eexists. split; [vm_compute; reflexivity|]. split; vm_compute; repeat split.
+Qed.
+
 (* ---------- clauses of the Standard's setters, for all records and values ---------- *)
 
 (* search / hash: the empty value sets the component to null; exactly one leading '?' / '#' is
